@@ -24,20 +24,18 @@ sys.path.insert(0, os.path.join(vlib.SPEC, "p2p"))
 import p2pcheck as pc  # noqa: E402
 
 
-def judge(ctx, trace, what, strict_env=True):
-    ok, matched, total, first, marks = pc.validate(ctx, "TraceProtocolMonitor", trace)
-    events = vlib.read_ndjson(trace)
-    if not ok:
-        raise vlib.ToolError("trace %s not consumed at event %d: %s" % (trace, matched + 1, json.dumps(first)[:300]))
+def judge(ctx, bundle, marks):
+    """ProtocolMonitor verdict over the bundled real runs (self-test parts excluded)."""
+    events = bundle.events
     n = 0
     for tag, line, payload in marks:
+        label, local = bundle.part_of(line)
+        if label.startswith("selftest"):
+            continue
         e = events[line - 1]
         if tag == "ENVBREAK":
-            if strict_env:
-                raise vlib.ToolError("harness delivered an event that is not consistent with a real connection "
-                                     "(event %d: %s) - driver bug, not a verdict" % (line, json.dumps(pc.slim(e))[:300]))
-            ctx.count("runs_not_judged_after_env_break", 1)
-            continue
+            raise vlib.ToolError("harness delivered an event that is not consistent with a real connection "
+                                 "(%s event %d: %s) - driver bug, not a verdict" % (label, local, json.dumps(pc.slim(e))[:300]))
         if tag != "BAD":
             continue
         for key in payload:
@@ -48,21 +46,20 @@ def judge(ctx, trace, what, strict_env=True):
                                  ":" + x["m"]["kind"] if x.get("m", {}).get("kind", "-") != "-" else "") for x in run[1:]]
             ctx.report(key, "%s: at event %d of run %s (%s) the real InitiatorBehavior emitted %s, which the %s "
                             "specification does not allow in the responder's state; schedule: %s" % (
-                                what, line, reset.get("sid"), e.get("ev"),
+                                label, local, reset.get("sid"), e.get("ev"),
                                 [o["m"]["kind"] for o in e.get("out", []) if o["t"] == "send"], key.split("/")[0],
                                 " ".join(sched[-14:])),
                        payload={"event": pc.slim(e), "schedule": sched}, src_file=runfile)
-    ctx.cov["evaluations"] += total
     return n
 
 
-def drift(ctx, trace, what):
-    ok, matched, total, first, marks = pc.validate(ctx, "TraceInitiator", trace, count=False)
+def drift_notes(ctx, bundle, ok, matched, total, first, marks):
     d = [(line, p) for tag, line, p in marks if tag == "DRIFT"]
     if not ok:
-        ctx.notes.append("DRIFT(%s): design-model comparison stopped at event %d: %s" % (what, matched + 1, json.dumps(first)[:200]))
+        ctx.notes.append("DRIFT: design-model comparison stopped at event %d: %s" % (matched + 1, json.dumps(first)[:200]))
     for line, p in d[:5]:
-        ctx.notes.append("DRIFT(%s): implementation step %d not reproduced by Initiator.tla: %s" % (what, line, json.dumps(p)[:200]))
+        ctx.notes.append("DRIFT(%s): implementation step %d not reproduced by Initiator.tla: %s" % (
+            bundle.part_of(line)[0], line, json.dumps(p)[:200]))
     ctx.count("design_model_steps_compared", total)
     ctx.count("design_model_drift", len(d) + (0 if ok else 1))
     return d
@@ -87,7 +84,7 @@ def run(ctx):
         ("bf", dict(ONE, SliceProtos='{"handshake", "blockfetch"}', Cmds='{"include", "hk", "reqblocks"}',
                     Versions="{13}", MaxDepth="13" if t else "10")),
         ("cs", dict(ONE, SliceProtos='{"handshake", "chainsync"}', Cmds='{"include", "hk", "startsync", "contsync", "demote"}',
-                    MaxDepth="15" if t else "12")),
+                    MaxDepth="15" if t else "13")),
         ("leios", dict(ONE, SliceProtos='{"handshake", "leiosnotify", "leiosfetch"}', Versions="{15}",
                        Cmds='{"include", "hk", "fetcheb", "fetchebtxs"}', MaxDepth="13" if t else "10")),
     ]
@@ -100,80 +97,71 @@ def run(ctx):
     for name, ov in slices:
         scheds, classes, consts = pc.mc_slice(ctx, "MCInitiatorC28.cfg", "C28" + name, ov, timeout=1500)
         model |= classes["c28"]
-        find, cover = pc.select(ctx, scheds, 100000 if t else 700)
+        find, cover = pc.select(ctx, scheds, None, prefix_free=False)
         cfg = pc.run_cfg_from_consts(consts, strict=True)
         for i, s in enumerate(find + cover):
             rows.append({"id": "%s-%s%d" % (name, s["kind"][0], i), "cfg": cfg, "sched": s["sched"],
-                         "expect": s["c28"] if s["kind"] == "finding" else []})
+                         "expect": s["c28"] if s["kind"] == "finding" else [], "exp": s.get("exp"),
+                         "must": s["kind"] == "finding" and bool(s["c28"])})
     ctx.cov["model_c28_classes"] = sorted(model)
 
-    # M2: TLC schedules -> real behaviour; M3: the real run judged by the monitor
-    trace, res = pc.replay(ctx, binary, rows, "m2")
-    ctx.cov["traces_validated_against_impl"] += len(rows)
+    # M2: TLC schedules -> real behaviour; long random schedules with randomly delayed confirmations
+    trace, res, rows = pc.replay(ctx, binary, rows, "m2", sample=100000 if t else 800)
     ctx.cov["schedules_replayed"] = len(rows)
     ctx.cov["schedule_steps_skipped_as_inconsistent"] = sum(r["skipped"] for r in res)
     viol_rows = [r for r in rows if r["expect"]]
     if viol_rows:
         ctx.sample({"tlc_counterexample": ["%s%s" % (s["ev"], ":" + s["m"]["kind"] if s["m"]["kind"] != "-" else "")
                                             for s in viol_rows[0]["sched"]], "classes": viol_rows[0]["expect"]})
-    n_m2 = judge(ctx, trace, "TLC schedule replay")
-    # design-model comparison on a bounded part of the replays
-    ev = vlib.read_ndjson(trace)
-    cut = 40000 if t else 6000
-    part = trace
-    if len(ev) > cut:
-        while cut < len(ev) and ev[cut].get("ev") != "reset":
-            cut += 1
-        part = ctx.path("m2.part.ndjson")
-        vlib.write_ndjson(part, ev[:cut])
-    drift(ctx, part, "M2")
-    # classes the model predicts but the real code did not show (or vice versa) are drift, not a verdict
-    real = set(ctx.known_hits.keys()) | set(v[0] for v in ctx.violations)
-    if model - real:
-        ctx.notes.append("DRIFT: classes predicted by the design model but not observed on the real code: %s" % sorted(model - real))
-
-    # long random schedules, confirmations delayed at random
     runs = 60 if t else 12
     tr = ctx.path("rand.ndjson")
     out = ctx.run_bin(binary, ["init-random", "--mode", "c28", "--seed", ctx.seed, "--runs", runs, "--events", 400,
                                "--peers", 12, "--out", tr])
     ctx.sample({"random_driver": json.loads(out)["stats"]})
-    judge(ctx, tr, "random schedule")
-    ctx.cov["traces_validated_against_impl"] += runs
-    evs = vlib.read_ndjson(tr)
-    ctx.sample({"impl_trace_event": pc.slim(next(e for e in evs if e.get("ev") == "hk" and any(o["t"] == "send" for o in e.get("out", []))))})
     sruns = 16 if t else 5
     trs = ctx.path("rand_small.ndjson")
     ctx.run_bin(binary, ["init-random", "--mode", "c28", "--seed", int(ctx.seed) + 700, "--runs", sruns, "--events", 200,
                          "--peers", 4, "--snap", 1, "--out", trs])
-    judge(ctx, trs, "random schedule (small)")
-    drift(ctx, trs, "M3-small")
-    ctx.cov["traces_validated_against_impl"] += sruns
+    ctx.cov["traces_validated_against_impl"] += len(rows) + runs + sruns
+    m2, evs, sev = vlib.read_ndjson(trace), vlib.read_ndjson(tr), vlib.read_ndjson(trs)
+    ctx.sample({"impl_trace_event": pc.slim(next(e for e in evs if e.get("ev") == "hk" and any(o["t"] == "send" for o in e.get("out", []))))})
 
-    # binding self-tests on a clean synthetic prefix of a real run: a server-only message in the emitted sequence,
-    # and a dropped responder reply, must both be rejected by the monitor
+    # binding self-tests as extra runs: a server-only message in the emitted sequence; a dropped Connected event
+    A = pc.Bundle().add("TLC schedule replay", m2).add("random schedule", evs).add("random schedule (small)", sev)
+    k = next(i for i, e in enumerate(sev) if e.get("ev") == "hk" and any(o["t"] == "send" and o["m"]["kind"] == "KeepAlive" for o in e.get("out", [])))
+    c1, k1 = pc.run_containing(sev, k, k)
+    for o in c1[k1]["out"]:
+        if o["t"] == "send" and o["m"]["kind"] == "KeepAlive":
+            o["m"]["kind"] = "ResponseKeepAlive"
+            break
+    A.add("selftest-kind", c1)
+    peer = next(o["p"] for o in sev[k]["out"] if o["t"] == "send")
+    c2, k2 = pc.run_containing(sev, k, k)
+    ci = max(i for i, e in enumerate(c2) if e.get("ev") == "connected" and e.get("p") == peer)
+    A.add("selftest-drop", [e for i, e in enumerate(c2) if i != ci])
+    pa = A.write(ctx.path("all_runs.ndjson"))
+
+    # M3 (verdict): the real runs' Send sequences judged by the monitor, one TLC start
+    ok, matched, total, first, marks = pc.validate(ctx, "TraceProtocolMonitor", pa)
+    if not ok:
+        raise vlib.ToolError("trace not consumed at event %d: %s" % (matched + 1, json.dumps(first)[:300]))
+    ctx.cov["evaluations"] += total
+    judge(ctx, A, marks)
+    # classes the model predicts but the real code did not show are drift, not a verdict
+    real = set(ctx.known_hits.keys()) | set(v[0] for v in ctx.violations)
+    if model - real:
+        ctx.notes.append("DRIFT: classes predicted by the design model but not observed on the real code: %s" % sorted(model - real))
     if not ctx.violations:
-        sev = vlib.read_ndjson(trs)
-        # first run, up to its first KeepAlive emission that is answered later
-        k = next(i for i, e in enumerate(sev) if e.get("ev") == "hk" and any(o["t"] == "send" and o["m"]["kind"] == "KeepAlive" for o in e.get("out", [])))
-        c1 = json.loads(json.dumps(sev[:k + 1]))
-        for o in c1[k]["out"]:
-            if o["t"] == "send" and o["m"]["kind"] == "KeepAlive":
-                o["m"]["kind"] = "ResponseKeepAlive"
-                break
-        p1 = ctx.path("selftest_kind.ndjson")
-        vlib.write_ndjson(p1, c1)
-        _, _, _, _, marks = pc.validate(ctx, "TraceProtocolMonitor", p1, count=False)
-        ctx.selftest("emitted KeepAlive logged as ResponseKeepAlive at event %d" % (k + 1),
-                     any(tg == "BAD" and l == k + 1 for tg, l, _ in marks))
-        # drop the Connected event of that peer: every later confirmation becomes inconsistent -> ENVBREAK
-        peer = next(o["p"] for o in sev[k]["out"] if o["t"] == "send")
-        ci = max(i for i, e in enumerate(sev[:k]) if e.get("ev") == "connected" and e.get("p") == peer)
-        c2 = [e for i, e in enumerate(sev[:k + 1]) if i != ci]
-        p2 = ctx.path("selftest_drop.ndjson")
-        vlib.write_ndjson(p2, c2)
-        _, _, _, _, marks = pc.validate(ctx, "TraceProtocolMonitor", p2, count=False)
-        ctx.selftest("Connected event %d dropped" % (ci + 1), any(tg == "ENVBREAK" for tg, _, _ in marks))
+        l1 = A.first_line("selftest-kind") + k1
+        ctx.selftest("emitted KeepAlive logged as ResponseKeepAlive", any(tg == "BAD" and l == l1 for tg, l, _ in marks))
+        ctx.selftest("Connected event dropped",
+                     any(tg == "ENVBREAK" and A.part_of(l)[0] == "selftest-drop" for tg, l, _ in marks))
+
+    # design-model comparison (DRIFT only) on a bounded part of the replays + the small runs
+    B = pc.Bundle().add("M2", pc.cut_at_reset(m2, 40000 if t else 4000)).add("M3-small", sev)
+    pb = B.write(ctx.path("model_runs.ndjson"))
+    okb, mb, tb, fb, marksb = pc.validate(ctx, "TraceInitiator", pb, count=False)
+    drift_notes(ctx, B, okb, mb, tb, fb, marksb)
 
     return ctx.finish(
         rule="MC: Initiator.tla || ProtocolMonitor, slices keep-alive+peer-sharing (2 peers), block-fetch, chain-sync, "
